@@ -939,6 +939,10 @@ mkincdecexpr(enum tokenkind op, struct expr *base, bool post)
 		error(&tok.loc, "operand of '%s' operator must be an lvalue", tokstr[op]);
 	if (base->qual & QUALCONST)
 		error(&tok.loc, "operand of '%s' operator is const qualified", tokstr[op]);
+	if (!(base->type->prop & PROPREAL) && base->type->kind != TYPEPOINTER)
+		error(&tok.loc, "operand of '%s' operator must have real or pointer type", tokstr[op]);
+	if (base->type->kind == TYPEPOINTER && (base->type->base->incomplete || base->type->base->kind == TYPEFUNC))
+		error(&tok.loc, "pointer operand of '%s' operator must be to complete object type", tokstr[op]);
 	e = mkexpr(EXPRINCDEC, base->type, base);
 	e->op = op;
 	e->u.incdec.post = post;
